@@ -92,5 +92,36 @@ def query_between_steps(inp):
     return tebd_query_between_computes(inp)
 
 
+def uncoupled_chain_is_single_sites(inp):
+    """a chain WITHOUT inter-site coupling (chain lengths 2..5, both Trotter orders): every site evolves exactly as the
+    corresponding single-site system (dense propagation of its own Liouvillian), total norm one"""
+    import numpy as np
+    import oqupy
+    from scipy.linalg import expm
+    ops = oqupy.operators
+    bad = []
+    for N in (2, 3, 5):
+        hs = [0.3 * (n + 1) * ops.sigma('x') + 0.2 * (n - 1) * ops.sigma('z') for n in range(N)]
+        gam = [0.05 * (n + 1) for n in range(N)]
+        chain = oqupy.SystemChain(hilbert_space_dimensions=[2] * N)
+        for n in range(N):
+            chain.add_site_hamiltonian(site=n, hamiltonian=hs[n])
+            chain.add_site_dissipation(site=n, lindblad_operator=ops.sigma('-'), gamma=gam[n])
+        states = [ops.spin_dm(s) for s in ['z-', 'x+', 'y+', 'z+', 'x-'][:N]]
+        for order in (1, 2):
+            t = oqupy.PtTebd(initial_augmented_mps=oqupy.AugmentedMPS(states), system_chain=chain, process_tensors=[None] * N,
+                             parameters=oqupy.PtTebdParameters(dt=0.1, order=order, epsrel=1e-10), dynamics_sites=list(range(N)), backend_config={})
+            r = t.compute(5, progress_type='silent')
+            for n in range(N):
+                L = oqupy.System(hs[n], gammas=[gam[n]], lindblad_operators=[ops.sigma('-')]).liouvillian()
+                want = (expm(L * 0.5) @ states[n].reshape(-1)).reshape(2, 2)
+                dev = float(np.abs(np.array(r['dynamics'][n].states[-1]) - want).max())
+                if dev > 1e-8:
+                    bad.append({'chain length': N, 'order': order, 'site': n, 'deviation from the single-site evolution': dev})
+            if abs(complex(np.array(r['norm'])[-1]) - 1) > 1e-8:
+                bad.append({'chain length': N, 'order': order, 'norm': str(np.array(r['norm'])[-1])})
+    return {'violates': bool(bad), 'detail': bad[:6]}
+
+
 # thorough tier (bounded native sweeps): (function, inputs, obligation of the open finding it reproduces or None)
-THOROUGH = [('parallel_modes', {}, None), ('partial_trace_consistency', {}, None), ('query_between_steps', {}, None)]
+THOROUGH = [('parallel_modes', {}, None), ('partial_trace_consistency', {}, None), ('query_between_steps', {}, None), ('uncoupled_chain_is_single_sites', {}, None)]
